@@ -120,7 +120,34 @@ def _bad_annotation(R, level):
     return kind, text
 
 
+def gen_undefined_deep(R, tier):
+    """a multi-level string in which the definition of one fragment of a LOWER level is missing: the node that
+    needs it only appears after one or two resolution steps and is bonded through descriptors"""
+    from .. import resgen
+    import re
+    c = resgen.gen_cut_string(R, tier, min_frags=2, with_levels=R.choice([1, 2]))
+    if c is None:
+        return None
+    blocks = re.findall(r"\{[^\}]+\}", c['input'])
+    variants = []
+    for lv in range(2, len(blocks)):
+        defs = blocks[lv][1:-1].split(',')
+        if len(defs) < 2:
+            continue
+        k = R.randrange(len(defs))
+        name = defs[k][1:defs[k].index('=')]
+        faulty = blocks[:lv] + ['{' + ','.join(d for i, d in enumerate(defs) if i != k) + '}'] + blocks[lv + 1:]
+        variants.append(dict(input='.'.join(faulty), call='resolve', coarse=False, exc='SyntaxError', pos=2,
+                             fault='definition of fragment %s removed from block %d of a %d-block string' % (name, lv, len(blocks))))
+    if not variants:
+        return None
+    return dict(input=c['input'], variants=variants, fault='undefined', features=['undefined', 'undefined_at_a_lower_level'],
+                base_call='resolve', base_coarse=False)
+
+
 def gen(R, tier):
+    if R.chance(0.05):
+        return gen_undefined_deep(R, tier)
     fault = R.choice(FAULTS)
     variants = []
     in_fragment = fault.endswith('_frag')
